@@ -29,6 +29,7 @@ import (
 	"github.com/influxdata/influxdb/models"
 	"github.com/influxdata/influxdb/tsdb/engine/tsm1"
 
+	"verif/mc/explore"
 	"verif/mc/report"
 )
 
@@ -429,13 +430,27 @@ func runScenario(s scenario) (viol, sig, obs string) {
 }
 
 func TestCheck(t *testing.T) {
+	if sc := explore.WorkerScenario(); sc != "" {
+		abortWorker(t, sc)
+		return
+	}
 	c := report.Begin("C09", "model_checking")
 	c.Rule = "every input file set (2 files quick / 3 thorough; per file 8 block layouts of key A x 3 of key B x 5 tombstone choices) x {full, fast} x block size {2,3,1000} x value types is compacted by the real Compactor and installed by the real FileStore; states = distinct scenarios, transitions = compactions; distinct = outcome classes"
 	c.Assumptions = []string{
 		"file sets are built directly with TSMWriter/Tombstoner (generation i = file i, one sequence per generation)",
-		"abort points (DisableCompactions racing a running compaction) are schedule exploration and belong to the scheduler part (not built yet); reader-error and failed-install paths are enumerated here",
+		"abort points: a full compaction in flight x SetCompactionsEnabled(false) x reader under the controlled scheduler (sync operations of the tsdb packages are scheduling points, delay-bounded; sync/atomic and channels are not); reader-error and failed-install paths are enumerated on the file sets",
 	}
 	if *replayFile != "" {
+		if rp, err := report.LoadReplay(*replayFile); err == nil && rp.Config["part"] == "abort" {
+			if sc, ok := findAbort(rp.Config["scenario"]); ok {
+				out, tp := explore.Replay(rp.Tape, abortBody(t, sc))
+				fmt.Printf("replay %s\n%d choices\noutcome: %+v\n", sc.name, len(tp.Choices), out)
+				if out.Violation != "" {
+					report.ExitCode = 1
+				}
+				return
+			}
+		}
 		t.Skip("replay: scenarios are self-describing in the replay file")
 	}
 	nfiles := c.Pick(2, 3)
@@ -607,6 +622,7 @@ func TestCheck(t *testing.T) {
 		c.Violation(x.sig, x.viol, map[string]any{"scenario": x.sc})
 	}
 	enginePart(t, c)
+	abortPart(t, c)
 	extra := map[string]any{"files_per_set": nfiles, "scenarios": len(scenarios), "scenarios_run": fed}
 	if capped != "" {
 		extra["capped"] = capped
